@@ -5,7 +5,9 @@ from ..common import Verdict, digest, rng_for, run_shards, seed, tier
 
 PROP = "C10"
 N = {"quick": 12000, "thorough": 150000}
-ALPHA = ["a", "b", "z", "A", '"', "'", "\\", "\n", "\t", ",", " ", "]", "[", "é", "ß", "日", "ж", "😀", "𝄞", "{", "}", "%", "#", "$", "\r", "\x7f", " ", "\x00"]
+ALPHA = ["a", "b", "z", "A", '"', "'", "\\", "\n", "\t", ",", " ", "]", "[", "é", "ß", "日", "ж", "😀", "𝄞", "{", "}", "%", "#", "$", "\r", "\x7f", " ", "\x00",
+         # strings that are not in Unicode normal form C / compatibility characters / an unpaired surrogate: a Literal holds the exact observed value
+         "e\u0301", "\u0301", "\u212b", "\u2126", "\ufb01", "\u1100\u1161", "\ud83d", "A\u030a"]
 FW = ["base", "pydantic", "dataclasses", "attrs", "sqlmodel"]
 PSEUDO = ["1", "42", "2.5", "1e3", "true", "False", "2018-01-02", "10:30:00", "2018-01-02T10:30:00"]
 
@@ -78,7 +80,15 @@ def gen_cases_for(seed_, n):
         reg = rng.choice([["IntString", "FloatString", "BooleanString"]] * 2 + [[]] +
                          [["IntString", "FloatString", "BooleanString", "IsoDateString", "IsoTimeString", "IsoDatetimeString"]])
         fw = rng.choice(FW)
-        cases.append({"i": i, "shape": shape, "values": values, "models": [["Root", samples]],
+        key = rng.choice(["f"] * 6 + ["id", "pk", "key", "name"])
+        if key != "f":
+            # the same position under a key that some frameworks treat specially (sqlmodel primary keys)
+            def ren(o):
+                if isinstance(o, dict):
+                    return {(key if k == "f" else k): ren(x) for k, x in o.items()}
+                return o
+            samples = [ren(smp) for smp in samples]
+        cases.append({"i": i, "shape": shape, "values": values, "key": key, "models": [["Root", samples]],
                       "opts": {"framework": fw, "flat": True, "merge": [["percent", 0.7], ["number", 10]], "max_literals": max_l,
                                "convert_unicode": True, "registry": reg, "dkf": [], "dkr": [], "post_init_converters": False, "meta": False}})
     return cases
@@ -132,11 +142,13 @@ def run_case(case):
                   and len(plain) < max_l and not generalised)
         lits = []
         ann = None
-        if infos and "f" in infos[0].fields:
-            ann = infos[0].fields["f"].ann
+        key = case.get("key", "f")
+        fname = next((n for n in (key, key + "_") if infos and n in infos[0].fields), None)
+        if fname:
+            ann = infos[0].fields[fname].ann
             find_literals(ann, lits)
         elif plain:
-            return {"status": "inconclusive", "why": "field f not found in the loaded module", "witnesses": [], "counters": {}}
+            return {"status": "inconclusive", "why": f"field {key} not found in the loaded module", "witnesses": [], "counters": {}}
         got = bool(lits)
         boundary = any(len(s) in (19, 20) for s in plain) or len(plain) in (15, 16) or len(plain) in (max_l - 1, max_l) \
             or any(ch in s for s in plain for ch in '"\\\n,\'😀𝄞')
